@@ -1,25 +1,27 @@
 // vh is the verification harness: it drives the real gomidi/midi library through its public API and
 // records what happened as NDJSON for TLC to judge.  It contains no MIDI/SMF oracle.
+// Each family registers its sub-commands from an init() in its own file (register("name", fn)).
 package main
 
 import (
 	"fmt"
 	"os"
+	"sort"
 )
 
-var cmds = map[string]func([]string){
-	"live-gen":   cmdLiveGen,
-	"live-rerun": cmdLiveRerun,
-	"live-walk":  cmdLiveWalk,
-	"smf-gen":    cmdSmfGen,
-	"smf-rerun":  cmdSmfRerun,
-	"vlq-sweep":  cmdVlqSweep,
-}
+var cmds = map[string]func([]string){}
+
+func register(name string, fn func([]string)) { cmds[name] = fn }
 
 func main() {
 	if len(os.Args) < 2 || cmds[os.Args[1]] == nil {
 		fmt.Fprintln(os.Stderr, "usage: vh <command> [flags]; commands:")
+		var ks []string
 		for k := range cmds {
+			ks = append(ks, k)
+		}
+		sort.Strings(ks)
+		for _, k := range ks {
 			fmt.Fprintln(os.Stderr, "  ", k)
 		}
 		os.Exit(3)
